@@ -149,6 +149,8 @@ class SymSeq(Model):
         return _num_or_int(self.length)
 
     def getitem(self, I, idx):
+        if getattr(self, "order_unknown", False):
+            raise Unsupported("positional access into sorted(<symbolic sequence>)")
         if isinstance(idx, slice) and idx.start is None and idx.step is None and idx.stop is not None:
             # prefix [:n]
             if self.tail:
@@ -179,6 +181,15 @@ class SymSeq(Model):
             zi = I.P.z(idx)
         I.P.check("index-in-range[%s:%s]" % (self.key, I.site(None)), z3.And(zi >= 0, zi < zn), "index %r into %s" % (idx, self.key))
         return self.at(I, idx)
+
+    def as_sorted(self, I, key=None, reverse=False):
+        """sorted(seq): a permutation of the same elements. The result keeps the element function, so an ARBITRARY element of it is an arbitrary element of
+        the original (what the independent-iterations rule and the big-sum summaries need); its order is unknown: positional access is refused."""
+        if self.tail:
+            raise Unsupported("sorted() of a symbolic sequence with appended elements")
+        r = SymSeq("sorted(%s)" % self.key, self.core_len, self.elem, self.facts)
+        r.order_unknown = True
+        return r
 
     def fresh_index(self, I, base="i"):
         """an arbitrary valid index (forks between the core and each appended element)"""
@@ -776,6 +787,8 @@ def py_print(I, *a, **k):
 
 
 def py_sorted(I, xs, key=None, reverse=False):
+    if isinstance(xs, Model) and hasattr(xs, "as_sorted"):
+        return xs.as_sorted(I, key, reverse)
     items = I.iterate(xs)
     try:
         if key is None:
